@@ -3,6 +3,7 @@ Model of `Minimize.reduce` (strategies.py:438-535), one `while True` iteration p
 `CollapseEmptyBraces` is the same loop with a non-trivial `_post_round_cb` (`postRound`).
 -/
 import LithiumModel.Iter
+import LithiumModel.Load
 
 namespace Strat
 
@@ -92,5 +93,42 @@ def stopAt (cfg : Cfg) (clk : Clock) : Option Nat := cfg.stopAfter.map (fun s =>
 /-- `Minimize.reduce` -/
 def minimize (cfg : Cfg) (o : Oracle) (clk : Clock) (t : Testcase) : It :=
   minLoop cfg o clk (stopAt cfg clk) id (minFuel t) (minInit cfg t) { best := t }
+
+/-! ### CollapseEmptyBraces: the same loop with a post-round callback -/
+
+/-- `\s` of a bytes pattern -/
+def isWs (b : UInt8) : Bool :=
+  b == 0x20 || b == 0x09 || b == 0x0A || b == 0x0D || b == 0x0C || b == 0x0B
+
+/-- `re.sub(rb"{\s+}", b"{ }", raw)`: leftmost non-overlapping matches (fuel = length + 1) -/
+def collapseSub : Nat → Bytes → Bytes
+  | 0, d => d
+  | _ + 1, [] => []
+  | f + 1, c :: rest =>
+    if c == 0x7B then
+      let r := rest.dropWhile isWs
+      if r.length < rest.length then
+        match r with
+        | 0x7D :: r' => 0x7B :: 0x20 :: 0x7D :: collapseSub f r'
+        | _ => c :: collapseSub f rest
+      else c :: collapseSub f rest
+    else c :: collapseSub f rest
+
+/-- `_post_round_cb`: collapse, write, re-load with the same splitter, try the result -/
+def collapsePost (reload : Bytes → Option Testcase) (o : Oracle) (it : It) : It :=
+  let raw := it.best.parts.flatten
+  let modified := collapseSub (raw.length + 1) raw
+  if raw == modified then it else
+  match reload (it.best.before ++ modified ++ it.best.after) with
+  | none => { it with internalError := true }    -- load raised
+  | some newTc =>
+    (it.try o newTc (fun r => { tag := 3, lo := 0, hi := 0, size := 0, bestLen := 0, base := it.best,
+                                tIdx := it.nTests, cand := newTc, resp := r })).2
+
+def collapseFuel (t : Testcase) : Nat := (t.len + 2) * (t.len + Nat.log2 (t.len + 1) + 6) + 8
+
+/-- `CollapseEmptyBraces.reduce` for a given splitter (`reload`) -/
+def collapse (reload : Bytes → Option Testcase) (cfg : Cfg) (o : Oracle) (clk : Clock) (t : Testcase) : It :=
+  minLoop cfg o clk (stopAt cfg clk) (collapsePost reload o) (collapseFuel t) (minInit cfg t) { best := t }
 
 end Strat
